@@ -111,9 +111,10 @@ def replay_chunk(cases: List[Dict[str, Any]]):
             try:
                 drv = make_driver(str(tmp / "d"), detail)
                 p = Pipeline(copy.deepcopy(nodes), trace=drv)
-                a = run_nodes(nodes, *mk(), pipeline=p)
+                own_orch = make_recording_orchestrator()     # a Pipeline keeps ONE orchestrator across its runs
+                a = run_nodes(nodes, *mk(), pipeline=p, orchestrator=own_orch)
                 files_a = set((tmp / "d").rglob("*.jsonl")) if (tmp / "d").exists() else set()
-                b = run_nodes(nodes, *mk(), pipeline=p)
+                b = run_nodes(nodes, *mk(), pipeline=p, orchestrator=own_orch)
                 files_b = set((tmp / "d").rglob("*.jsonl")) - files_a if (tmp / "d").exists() else set()
                 ra = [r for f in sorted(files_a) for r in read_records(f)]
                 rb = [r for f in sorted(files_b) for r in read_records(f)]
